@@ -485,11 +485,11 @@ class DHCPMsgTypeOption (DHCPOption):
   def unpack (cls, data, code = None):
     self = cls()
     if len(data) != 1: raise RuntimeError("Bad option length")
-    self.type = ord(data[0])
+    self.type = data[0]
     return self
 
   def pack (self):
-    return chr(self.type)
+    return bytes([self.type])
 
   def __repr__ (self):
     t = {
@@ -553,11 +553,11 @@ class DHCPOptionOverloadOption (DHCPOption):
   def unpack (cls, data, code = None):
     self = cls()
     if len(data) != 1: raise RuntimeError("Bad option length")
-    self.value = ord(data[0])
+    self.value = data[0]
     return self
 
   def pack (self):
-    return chr(self.value)
+    return bytes([self.value])
 
   def __repr__ (self):
     return "%s(%s)" % (self._name, self.value)
@@ -586,12 +586,12 @@ class DHCPParameterRequestOption (DHCPOption):
   @classmethod
   def unpack (cls, data, code = None):
     self = cls()
-    self.options = [ord(x) for x in data]
+    self.options = list(data)
     return self
 
   def pack (self):
     opt = ((o.CODE if is_subclass(o, DHCPOption) else o) for o in self.options)
-    return b''.join(chr(x) for x in opt)
+    return bytes(opt)
 
   def __repr__ (self):
     names = []
